@@ -183,6 +183,9 @@ def base(t):
   return 0
 
 
+_UNDER_TYPE = [0]       # nesting depth of type[...]: pytype cannot emit `nothing` below it
+
+
 def gen_type(r, depth, dialect, pos="top"):
   """dialect=True: only types a stub written by pytype can contain (fixed points of Optimize with unrelated
   classes); dialect=False additionally produces everything the pyi parser accepts in this grammar."""
@@ -198,7 +201,7 @@ def gen_type(r, depth, dialect, pos="top"):
       return ("cls", NONE_ID)
     if y < 0.80:
       return ANY if pos != "member" or not dialect else ("cls", 10)
-    if y < 0.86 and pos == "param":
+    if y < 0.86 and pos == "param" and not (dialect and _UNDER_TYPE[0]):
       return NOTHING
     if y < 0.94:
       return ("cls", r.choice(CONTAINERS + [TUPLE_ID, CALLABLE_ID]))     # bare generic class
@@ -228,7 +231,11 @@ def gen_type(r, depth, dialect, pos="top"):
       return ("cls", CALLABLE_ID)
     return ("gen", CALLABLE_ID, (ANY, ret))
   if x < 0.90:
-    u = gen_type(r, depth - 1, dialect, "cls")
+    _UNDER_TYPE[0] += 1
+    try:
+      u = gen_type(r, depth - 1, dialect, "cls")
+    finally:
+      _UNDER_TYPE[0] -= 1
     if dialect and (u in (ANY, NOTHING) or u == ("cls", TYPE_ID)):
       u = ("cls", USER_BASE)
     return ("gen", TYPE_ID, (u,))
@@ -327,3 +334,103 @@ def round_trip(stub_lines, workdir, kind="x"):
   errors = [(e.name, e.line, str(e.message)) for e in ret.context.errorlog]
   return ([loaded.get("x%d" % i) for i in range(n)], [pre.get("y%d" % i) for i in range(n)],
           [post.get("y%d" % i) for i in range(n)], errors)
+
+
+# ---------------------------------------------------------------------------------------------
+# shrinking of a failing stub type (the verdict itself is always taken in Coq; this Python copy of
+# Model.v's nf / sort_ty is used only to steer the shrinker)
+
+def py_nf(t):
+  k = t[0]
+  if k == "gen":
+    ps = tuple(py_nf(p) for p in t[2])
+    if t[1] == TYPE_ID and len(ps) == 1:
+      u = ps[0]
+      one = lambda e: ("cls", TYPE_ID) if e == ANY else ("gen", TYPE_ID, (e,))
+      return ("union", tuple(one(e) for e in u[1])) if u[0] == "union" else one(u)
+    return ("cls", t[1]) if all(p == ANY for p in ps) else ("gen", t[1], ps)
+  if k == "tup":
+    return ("tup", tuple(py_nf(p) for p in t[1]))
+  if k == "call":
+    return ("call", tuple(py_nf(p) for p in t[1]), py_nf(t[2]))
+  if k == "union":
+    ms = []
+    for m in t[1]:
+      n = py_nf(m)
+      ms.extend(n[1] if n[0] == "union" else ([] if n == NOTHING else [n]))
+    return NOTHING if not ms else ms[0] if len(ms) == 1 else ("union", tuple(ms))
+  return t
+
+
+def py_sort(t):
+  k = t[0]
+  if k == "gen":
+    return ("gen", t[1], tuple(py_sort(p) for p in t[2]))
+  if k == "tup":
+    return ("tup", tuple(py_sort(p) for p in t[1]))
+  if k == "call":
+    return ("call", tuple(py_sort(p) for p in t[1]), py_sort(t[2]))
+  if k == "union":
+    return ("union", tuple(sorted({py_sort(m) for m in t[1]}, key=repr)))
+  return t
+
+
+def py_canon(t):
+  return py_sort(py_nf(t))
+
+
+def subterms(t):
+  k = t[0]
+  if k == "gen":
+    return list(t[2])
+  if k in ("tup", "union"):
+    return list(t[1])
+  if k == "call":
+    return list(t[1]) + [t[2]]
+  return []
+
+
+def simplifications(t):
+  """smaller candidates: a child alone, or the type with one child replaced by `int` / dropped."""
+  out = [c for c in subterms(t) if c not in (ANY, NOTHING)]
+  k = t[0]
+  leaf = ("cls", 10)
+  def rebuild(children):
+    if k == "gen":
+      return ("gen", t[1], tuple(children))
+    if k == "tup":
+      return ("tup", tuple(children))
+    if k == "union":
+      return ("union", tuple(children)) if len(children) >= 2 else None
+    return ("call", tuple(children[:-1]), children[-1])
+  cs = subterms(t)
+  for i, c in enumerate(cs):
+    for sub in simplifications(c):
+      r = rebuild(cs[:i] + [sub] + cs[i + 1:])
+      if r:
+        out.append(r)
+    if c != leaf and k != "union":
+      r = rebuild(cs[:i] + [leaf] + cs[i + 1:])
+      if r:
+        out.append(r)
+    if k in ("tup", "union") or (k == "call" and i < len(cs) - 1):
+      r = rebuild(cs[:i] + cs[i + 1:])
+      if r:
+        out.append(r)
+  return out
+
+
+def shrink_type(t, still_bad, budget_s=20.0):
+  import time
+  deadline = time.time() + budget_s
+  changed = True
+  while changed and time.time() < deadline:
+    changed = False
+    for c in sorted(simplifications(t), key=size):
+      if time.time() > deadline:
+        break
+      if size(c) < size(t) and still_bad(c):
+        t = c
+        changed = True
+        break
+  return t
